@@ -91,7 +91,8 @@ PROPS = {
         'runs': [{'cmd': 'stepper', 'args': ['-family', 'mixed']},
                  {'cmd': 'stepper', 'args': ['-family', 'faulty']},
                  {'cmd': 'stepper', 'args': ['-family', 'dynamic']},
-                 {'cmd': 'stepper', 'args': ['-family', 'saturated']}],
+                 {'cmd': 'stepper', 'args': ['-family', 'saturated']},
+                 {'cmd': 'blackbox', 'args': ['-scenario', 'prio2,simple2,prio1,simple1']}],
         'monitor_prefix': ['C01'],
         'level': 'proof',
         'level_text': ('Lean theorem by induction over ARBITRARY action lists of the scheduler machine (v1 and v2 in one '
@@ -115,7 +116,8 @@ PROPS = {
         'lean_targets': ['Cqos.Props.C03'],
         'theorems': ['Cqos.C03.jstep_inv', 'Cqos.C03.jrun_inv', 'Cqos.C03.c03_concat', 'Cqos.C03.c03_prefix',
                      'Cqos.C03.c03_nonempty', 'Cqos.C03.c03_join_le', 'Cqos.C03.c03_unite_big'],
-        'runs': [{'cmd': 'jstepper', 'args': ['-family', 'mixed']}],
+        'runs': [{'cmd': 'jstepper', 'args': ['-family', 'mixed']},
+                 {'cmd': 'blackbox', 'args': ['-scenario', 'join']}],
         'monitor_prefix': ['C03'],
         'level': 'proof',
         'level_text': ('Lean theorems by induction over ARBITRARY action lists of the join/unite machine (items or slices of '
@@ -137,7 +139,8 @@ PROPS = {
         'lean_targets': ['Cqos.Props.C08'],
         'theorems': ['Cqos.C08.e_step', 'Cqos.C08.e_run', 'Cqos.C08.c08_copy', 'Cqos.C08.c08_nocopy',
                      'Cqos.C08.c08_await_only_release', 'Cqos.C08.c08_v1_frozen', 'Cqos.C08.c08_cap'],
-        'runs': [{'cmd': 'jstepper', 'args': ['-family', 'mixed']}],
+        'runs': [{'cmd': 'jstepper', 'args': ['-family', 'mixed']},
+                 {'cmd': 'blackbox', 'args': ['-scenario', 'join']}],
         'monitor_prefix': ['C08'],
         'level': 'proof',
         'level_text': ('Lean theorems on the ownership model of the batching machine (memory identities: buffer = 0, inputs < 10^6, '
@@ -157,7 +160,8 @@ PROPS = {
         'theorems': ['Cqos.C09.join_step_emits', 'Cqos.C09.flags_mono', 'Cqos.C09.exact_step', 'Cqos.C09.c09_join_exact',
                      'Cqos.C09.c09_untimed_no_tick', 'Cqos.C09.c09_unite_maximal', 'Cqos.C09.c09_tick_needs_timeout',
                      'Cqos.C09.c09_passAt_at_emission', 'Cqos.C09.c09_passAt_at_release'],
-        'runs': [{'cmd': 'jstepper', 'args': ['-family', 'untimed']}, {'cmd': 'jstepper', 'args': ['-family', 'mixed']}],
+        'runs': [{'cmd': 'jstepper', 'args': ['-family', 'untimed']}, {'cmd': 'jstepper', 'args': ['-family', 'mixed']},
+                 {'cmd': 'blackbox', 'args': ['-scenario', 'join']}],
         'monitor_prefix': ['C09'],
         'level': 'proof',
         'level_text': ('Lean theorems: join - for every action list, every slice not emitted by a ticker firing, the closing of the '
@@ -176,7 +180,8 @@ PROPS = {
         'theorems': ['Cqos.C10.c10_interval_v2', 'Cqos.C10.c10_interval_v2_nonpositive', 'Cqos.C10.c10_interval_v2_errors',
                      'Cqos.C10.c10_interval_v1', 'Cqos.C10.f_step', 'Cqos.C10.f_run', 'Cqos.C10.c10_passAt_le_oldest',
                      'Cqos.C10.c10_flush'],
-        'runs': [{'cmd': 'pure', 'args': ['-family', 'c10']}, {'cmd': 'jstepper', 'args': ['-family', 'mixed']}],
+        'runs': [{'cmd': 'pure', 'args': ['-family', 'c10']}, {'cmd': 'jstepper', 'args': ['-family', 'mixed']},
+                 {'cmd': 'blackbox', 'args': ['-scenario', 'join']}],
         'monitor_prefix': ['C10'],
         'level': 'proof',
         'level_text': ('Lean theorems: the interrupt interval tau satisfies 1 <= tau, tau*floor(100/inacc) <= Timeout, '
@@ -193,7 +198,7 @@ PROPS = {
     'C11': {
         'lean_targets': ['Cqos.Props.C11'],
         'theorems': ['Cqos.C11.g_step', 'Cqos.C11.g_run', 'Cqos.C11.c11_whole', 'Cqos.C11.c11_always', 'Cqos.C11.c11_oversize'],
-        'runs': [{'cmd': 'jstepper', 'args': ['-family', 'mixed']}],
+        'runs': [{'cmd': 'jstepper', 'args': ['-family', 'mixed']}, {'cmd': 'blackbox', 'args': ['-scenario', 'join']}],
         'monitor_prefix': ['C11'],
         'level': 'proof',
         'level_text': ('Lean theorem for every action list of the unite machine: the output slices are exactly the concatenations of '
@@ -209,7 +214,8 @@ PROPS = {
         'lean_targets': ['Cqos.Props.C04'],
         'theorems': ['Cqos.C04.tstep_inv', 'Cqos.C04.trun_inv', 'Cqos.C04.c04_item_time', 'Cqos.C04.c04_cumulative',
                      'Cqos.C04.c04_batches'],
-        'runs': [{'cmd': 'lstepper', 'args': ['-family', 'mixed']}],
+        'runs': [{'cmd': 'lstepper', 'args': ['-family', 'mixed']},
+                 {'cmd': 'blackbox', 'args': ['-scenario', 'limit']}],
         'monitor_prefix': ['C04'],
         'level': 'proof',
         'level_text': ('Lean theorems on the limit machine for every action list (every arrival pattern and consumer speed): the '
@@ -227,7 +233,8 @@ PROPS = {
         'lean_targets': ['Cqos.Props.C12'],
         'theorems': ['Cqos.C12.lstep_inv', 'Cqos.C12.lrun_inv', 'Cqos.C12.c12_passthrough', 'Cqos.C12.c12_close',
                      'Cqos.C12.c12_no_pause_small', 'Cqos.C12.c12_sleep_count'],
-        'runs': [{'cmd': 'lstepper', 'args': ['-family', 'mixed']}],
+        'runs': [{'cmd': 'lstepper', 'args': ['-family', 'mixed']},
+                 {'cmd': 'blackbox', 'args': ['-scenario', 'limit']}],
         'monitor_prefix': ['C12'],
         'level': 'proof',
         'level_text': ('Lean theorems on the limit machine for every action list: the sent elements are always an in-order prefix of '
@@ -245,7 +252,8 @@ PROPS = {
         'theorems': ['Cqos.C02.step_hinv', 'Cqos.C02.run_hinv', 'Cqos.C02.c02_fifo', 'Cqos.C02.c02_v2_no_drop',
                      'Cqos.C02.c02_subsequence', 'Cqos.C02.c02_tag', 'Cqos.C02.c02_simple'],
         'runs': [{'cmd': 'stepper', 'args': ['-family', 'mixed']}, {'cmd': 'stepper', 'args': ['-family', 'terminate']},
-                 {'cmd': 'stepper', 'args': ['-family', 'dynamic']}],
+                 {'cmd': 'stepper', 'args': ['-family', 'dynamic']},
+                 {'cmd': 'blackbox', 'args': ['-scenario', 'prio2,prio1']}],
         'monitor_prefix': ['C02'],
         'level': 'proof',
         'level_text': ('Lean theorems on the history variables of the scheduler machine (arrived, taken, delivered, dropped) for every '
@@ -266,7 +274,8 @@ PROPS = {
                      'Cqos.C15.c15_args_v2', 'Cqos.C15.c15_args_v1', 'Cqos.C15.c15_args_sublist_calc',
                      'Cqos.C15.c15_args_sublist_recalc', 'Cqos.C15.c15_new_divider_bad', 'Cqos.C15.c15_new_too_small',
                      'Cqos.C15.c15_unfixed_counterexample'],
-        'runs': [{'cmd': 'stepper', 'args': ['-family', 'faulty']}, {'cmd': 'pure', 'args': ['-family', 'c18']}],
+        'runs': [{'cmd': 'stepper', 'args': ['-family', 'faulty']}, {'cmd': 'pure', 'args': ['-family', 'c18']},
+                 {'cmd': 'blackbox', 'args': ['-scenario', 'faulty']}],
         'monitor_prefix': ['C15'],
         'level': 'proof',
         'level_text': ('Lean theorems for every action list and every (faulty, stateful) divider: each recorded divider call has a '
@@ -287,7 +296,8 @@ PROPS = {
                      'Cqos.C07.stopped_false_v2', 'Cqos.C07.c07_no_error_calc', 'Cqos.C07.c07_no_error_recalc',
                      'Cqos.C15.c15_drain_progress'],
         'runs': [{'cmd': 'stepper', 'args': ['-family', 'terminate']}, {'cmd': 'stepper', 'args': ['-family', 'mixed']},
-                 {'cmd': 'stepper', 'args': ['-family', 'dynamic']}],
+                 {'cmd': 'stepper', 'args': ['-family', 'dynamic']},
+                 {'cmd': 'blackbox', 'args': ['-scenario', 'prio2,prio1,simple1']}],
         'monitor_prefix': ['C07', 'C02 the discipline terminated normally'],
         'level': 'proof',
         'level_text': ('Lean theorems for every action list and divider: a terminated v2 discipline has every registered input '
@@ -304,7 +314,8 @@ PROPS = {
         'lean_targets': ['Cqos.Props.C17'],
         'theorems': ['Cqos.C17.c17_remove', 'Cqos.C17.c17_remove_unreg', 'Cqos.C17.c17_unregistered_not_read', 'Cqos.C17.c17_add',
                      'Cqos.C17.c17_actual_survives', 'Cqos.C01.c01_v1', 'Cqos.C15.c15_args_v1', 'Cqos.C07.c07_v1_graceful_only_then'],
-        'runs': [{'cmd': 'stepper', 'args': ['-family', 'dynamic']}],
+        'runs': [{'cmd': 'stepper', 'args': ['-family', 'dynamic']},
+                 {'cmd': 'blackbox', 'args': ['-scenario', 'dynamic']}],
         'monitor_prefix': ['C17', 'C02', 'C01'],
         'level': 'proof',
         'level_text': ('Lean theorems on the v1 machine whose alphabet contains the loop-top cases add/remove (the caller returns when '
@@ -321,7 +332,8 @@ PROPS = {
         'lean_targets': ['Cqos.Props.C16'],
         'theorems': ['Cqos.C16.c16_stop_step', 'Cqos.C16.c16_exit_bound', 'Cqos.C16.c16_quiet', 'Cqos.C16.c16_unfixed_cycle',
                      'Cqos.C16.c16_join_stop', 'Cqos.C08.c08_v1_frozen', 'Cqos.C02.c02_subsequence', 'Cqos.C03.c03_prefix'],
-        'runs': [{'cmd': 'stepper', 'args': ['-family', 'stops']}, {'cmd': 'jstepper', 'args': ['-family', 'mixed']}],
+        'runs': [{'cmd': 'stepper', 'args': ['-family', 'stops']}, {'cmd': 'jstepper', 'args': ['-family', 'mixed']},
+                 {'cmd': 'blackbox', 'args': ['-scenario', 'prio1,simple1,join']}],
         'monitor_prefix': ['C16'],
         'level': 'proof',
         'level_text': ('Lean theorems on the v1 machine (with the repaired waitCalcTactic, defect D3): in every reachable stopped, '
